@@ -242,6 +242,8 @@ def norm_class(t):
         t = 'std::basic_string<char>'
     t = re.sub(r'(?<![A-Za-z0-9_:])(vector|shared_ptr|unique_ptr|deque|map|set|pair)<', r'std::\1<', t)
     t = t.replace('bpp::', '')
+    t = re.sub(r'(?<![A-Za-z0-9_])(?:std::)?size_t(?![A-Za-z0-9_])', 'unsigned long', t)
+    t = re.sub(r'(?<![A-Za-z0-9_])uint(?![A-Za-z0-9_])', 'unsigned int', t)
     return t
 
 MANGLE_ALIAS = {'std::basic_string<char>': 'Str', 'std::string': 'Str'}
